@@ -95,6 +95,7 @@ class TreeBuilder:
         self.style = style
         self.naming = naming
         self.counter = 0
+        self.objs = 0
 
     def tick(self):
         self.counter += 1
@@ -139,7 +140,8 @@ class TreeBuilder:
         if not poss:
             return None
         k = self.tick()
-        rt = poss[k % len(poss)]
+        self.objs += 1
+        rt = poss[(self.objs + self.variant) % len(poss)]  # consecutive objects (list items) get different runtime types
         fields = {}
         # every possible type's fields so that any naming level may pick any possible type
         for pn in (poss if td.kind != "OBJECT" else (rt,)):
